@@ -1,5 +1,98 @@
-(* DiagramIO.v — stub: replaced by the real decoder/runner when the property is built. *)
-From Coq Require Import List.
-From M Require Import Sx.
+(* DiagramIO.v — decoding of generated diagram cases and encoding of the observation
+   (abstract lines of the full and the region-of-interest view after every step). *)
+From Coq Require Import List Arith Bool.
+From M Require Import Sx Diagram.
 Import ListNotations.
-Definition run_diagram_case (x : sx) : sx := L [N 0].
+
+Definition d_str : sx -> option str := d_list d_nat.
+Definition d_name : sx -> option name := d_list d_nat.
+
+Definition d_ini (x : sx) : option sinit :=
+  match x with
+  | L [] => Some NoInit
+  | L [N 0; N j] => Some (IniOne j)
+  | L [N 1] => Some IniPar
+  | _ => None
+  end.
+
+(* stree := [id; text; label option; final; enter; exit; comp; ini; kids] *)
+Fixpoint d_stree (x : sx) : option stree :=
+  match x with
+  | L [N i; tx; lb; fin; en; ex; cp; ini; L ks] =>
+      do tx' <- d_str tx; do lb' <- d_option d_str lb; do fin' <- d_bool fin;
+      do en' <- d_list d_str en; do ex' <- d_list d_str ex; do cp' <- d_bool cp; do ini' <- d_ini ini;
+      do ks' <- (fix go (l : list sx) : option (list stree) :=
+                   match l with
+                   | [] => Some []
+                   | k :: r => match d_stree k, go r with
+                               | Some k', Some r' => Some (k' :: r')
+                               | _, _ => None
+                               end
+                   end) ks;
+      Some (Node i tx' lb' fin' en' ex' cp' ini' ks')
+  | _ => None
+  end.
+
+(* trans := [trigger; label option; src; dst option; conds; unless] *)
+Definition d_trans (x : sx) : option trans :=
+  match x with
+  | L [tr; lb; src; dst; cs; us] =>
+      do tr' <- d_str tr; do lb' <- d_option d_str lb; do s <- d_name src; do d <- d_option d_name dst;
+      do cs' <- d_list (d_pair d_str d_bool) cs; do us' <- d_list (d_pair d_str d_bool) us;
+      Some (mkT tr' lb' s d cs' us')
+  | _ => None
+  end.
+
+Definition d_opts (x : sx) : option opts :=
+  match x with
+  | L [a; b; c; d; e] =>
+      do a' <- d_bool a; do b' <- d_bool b; do c' <- d_bool c; do d' <- d_bool d; do e' <- d_bool e;
+      Some (mkO a' b' c' d' e')
+  | _ => None
+  end.
+
+Definition d_op (x : sx) : option op :=
+  match x with
+  | L [N 0; e] => do e' <- d_str e; Some (Ev e')
+  | L [N 1; s] => do s' <- d_stree s; Some (AddState s')
+  | L [N 2; t] => do t' <- d_trans t; Some (AddTrans t')
+  | L [N 3; e; s; d] =>
+      do e' <- d_str e; do s' <- d_option d_name s; do d' <- d_option d_name d; Some (RemTrans e' s' d')
+  | _ => None
+  end.
+
+Definition e_name (n : name) : sx := e_list e_nat n.
+Definition e_line (l : line) : sx :=
+  match l with
+  | Decl n lb => L [N 0; e_name n; e_name lb]
+  | Final n => L [N 1; e_name n]
+  | ClassOf n s => L [N 2; e_name n; N s]
+  | Open n => L [N 3; e_name n]
+  | Close => L [N 4]
+  | Sep => L [N 5]
+  | Init n => L [N 6; e_name n]
+  | Edge s d ls => L [N 7; e_name s; e_name d; e_list e_name ls]
+  end.
+
+(* observation of one moment: current state(s), full view, roi view *)
+Definition e_obs (d : dstate) : sx :=
+  L [e_list e_name (d_cur d); e_list e_line (view d); e_list e_line (view_roi d)].
+
+Fixpoint observe (d : dstate) (ops : list op) : list sx :=
+  match ops with
+  | [] => []
+  | o :: r => let d' := step d o in e_obs d' :: observe d' r
+  end.
+
+(* case := [opts; states; transitions; initial; ops] *)
+Definition run_diagram_case (x : sx) : sx :=
+  match x with
+  | L [ox; sx_; tx; ix; opx] =>
+      match d_opts ox, d_list d_stree sx_, d_list d_trans tx, d_name ix, d_list d_op opx with
+      | Some o, Some f, Some ts, Some i, Some ops =>
+          let d0 := init_state (mkM f ts i o) in
+          L [N 1; L (e_obs d0 :: observe d0 ops)]
+      | _, _, _, _, _ => L [N 0]
+      end
+  | _ => L [N 0]
+  end.
